@@ -22,6 +22,7 @@ CONSTANTS
   InitDescs <- GenInit3
   Descs <- GenDescs3
   GIdents <- GIdentsQ
+  GActions = {"update", "reply", "changed", "error_update", "error_read"}
   GLevels <- GLevelsQ
   EmitOneIn = 4
   MaxCbs = 4
